@@ -50,7 +50,9 @@ inline const Files& files() {
         {"draft7", "http://json-schema.org/draft-07/schema#"}, {"draft2019-09", "https://json-schema.org/draft/2019-09/schema"},
         {"draft2020-12", "https://json-schema.org/draft/2020-12/schema"}};
     for (auto& d : drafts) {
-        for (auto& path : list_json(root + "/jsonschema/JSON-Schema-Test-Suite/tests/" + d.dir)) {
+        std::vector<std::string> paths;
+        for (const char* sub : {"", "/optional", "/optional/format"}) for (auto& q : list_json(root + "/jsonschema/JSON-Schema-Test-Suite/tests/" + d.dir + sub)) paths.push_back(q);
+        for (auto& path : paths) {
             MVal doc; if (!load(path, doc) || !doc.is_arr()) { ++F.files_skipped; continue; }
             ++F.files_read;
             for (auto& g : doc.a) {
